@@ -678,6 +678,10 @@ func parseFuncHeader(rest string, sigExpected bool) (string, []string, []string)
 // expression grammar does not cover (map[string]string).
 func parseLocExpr(m string) (*Expr, error) {
 	t := strings.TrimSpace(m)
+	if strings.HasPrefix(t, "elems(") && strings.HasSuffix(t, ")") {
+		ty := strings.TrimSpace(t[6 : len(t)-1])
+		return &Expr{Kind: "call", Name: "elems", Args: []*Expr{{Kind: "ident", Name: ty, Src: ty}}, Src: t}, nil
+	}
 	if strings.HasPrefix(t, "maps(") && strings.HasSuffix(t, ")") {
 		ty := strings.TrimSpace(t[5 : len(t)-1])
 		return &Expr{Kind: "call", Name: "maps", Args: []*Expr{{Kind: "ident", Name: ty, Src: ty}}, Src: t}, nil
